@@ -656,7 +656,7 @@ def run(ctx, model_ok=True):
     ctx.notes["seconds_k6"] = round(time.time() - t00, 1)
     import time
     t0 = time.time()
-    plumbing(ctx, ctx.n(300, 3000), model_ok)
+    plumbing(ctx, ctx.n(500, 3000), model_ok)
     ctx.notes["seconds_plumbing"] = round(time.time() - t0, 1)
     t0 = time.time()
     oracle_runs(ctx, ctx.n(60, 600))
